@@ -117,6 +117,13 @@ FourMerCount(s, c) == Cardinality({p \in 1..(Len(s) - 3) : FourMerCode(WindowDig
 (* the non-zero entries of the table, as a set of <<code, count>> *)
 FourMerTable(s) == LET q == FourMerCodes(s) IN {<<c, Cardinality({p \in 1..Len(q) : q[p] = c})>> : c \in {q[p] : p \in 1..Len(q)}}
 
+(* number of 4-mer occurrences shared by two sequences (obikmer.Common4Mer on two tables): sum over the   *)
+(* codes of the smaller of the two counts                                                                 *)
+FourMerCommon(a, b) ==
+  LET ta == FourMerTable(a)  tb == FourMerTable(b)
+      both == {<<e, f>> \in ta \X tb : e[1] = f[1]}
+  IN FoldLeft(LAMBDA acc, p : acc + (IF p[1][2] <= p[2][2] THEN p[1][2] ELSE p[2][2]), 0, SetToSeq(both))
+
 ---------------------------------------------------------------------------
 (* Part 4 - rolling model.  A machine word is a tuple of WL digits, most significant first.  *)
 
